@@ -936,28 +936,28 @@ package zygo
 // pops exactly those scopes; the tail self-call emits one RemoveScope per open scope.
 //@ clauseall \(\*Generator\)\.(Generate[A-Za-z]*|generateSyntaxQuote[A-Za-z]*) :: assume preserves Generator.scopes except gen
 //@ func (*Generator).Reset
-//@ C02,C04,C09 preserves Generator.scopes except gen
-//@ C02,C04,C09 preserves Generator.funcname
+//@ C02,C03,C04,C09 preserves Generator.scopes except gen
+//@ C02,C03,C04,C09 preserves Generator.funcname
 //@ func NewGenerator
-//@ C02,C04,C09 preserves Generator.scopes
-//@ C02,C04,C09 preserves Generator.funcname
+//@ C02,C03,C04,C09 preserves Generator.scopes
+//@ C02,C03,C04,C09 preserves Generator.funcname
 //@ func (*Generator).NewSubGenerator
-//@ C02,C04,C09 preserves Generator.scopes
-//@ C02,C04,C09 preserves Generator.funcname
+//@ C02,C03,C04,C09 preserves Generator.scopes
+//@ C02,C03,C04,C09 preserves Generator.funcname
 //@ func (*Generator).GenerateCond
-//@ C02,C04,C09 assert default-arm-scope-depth @before call Generate[0]: arg0.scopes == old(gen.scopes) && arg0.funcname == old(gen.funcname)
-//@ C02,C04,C09 assert arm-scope-depth @before call Generate[2]: arg0.scopes == old(gen.scopes) && arg0.funcname == old(gen.funcname)
-//@ C02,C04,C09 loop 0 invariant gen.scopes == old(gen.scopes) && gen.funcname == old(gen.funcname) && subgen != gen
+//@ C02,C03,C04,C09 assert default-arm-scope-depth @before call Generate[0]: arg0.scopes == old(gen.scopes) && arg0.funcname == old(gen.funcname)
+//@ C02,C03,C04,C09 assert arm-scope-depth @before call Generate[2]: arg0.scopes == old(gen.scopes) && arg0.funcname == old(gen.funcname)
+//@ C02,C03,C04,C09 loop 0 invariant gen.scopes == old(gen.scopes) && gen.funcname == old(gen.funcname) && subgen != gen
 //@ func (*Generator).GenerateShortCircuit
-//@ C02,C04,C09 assert last-operand-scope-depth @before call Generate[0]: arg0.scopes == old(gen.scopes) && arg0.funcname == old(gen.funcname)
+//@ C02,C03,C04,C09 assert last-operand-scope-depth @before call Generate[0]: arg0.scopes == old(gen.scopes) && arg0.funcname == old(gen.funcname)
 // a tail self-call re-enters the function the way a call would: the activation's own function
 // scope is popped too and the jump goes to instruction 0, which makes a new function scope;
 // a closure made by an earlier iteration keeps that iteration's parameters
 //@ func (*Generator).GenerateCallBySymbol
 //@ ghost lenAfterArgs := 0 - 1 @entry
 //@ ghost lenAfterArgs := len(gen.instructions) @after call GenerateCallArgsForFunction[0]
-//@ C02,C04,C09 assert pops-all-extra-scopes @before call AddInstruction[*]: typeis(arg1, PrepareCallInstr) ==> len(arg0.instructions) == lenAfterArgs + ite(gen.scopes > 0, gen.scopes, 0)
-//@ C02,C04,C09 loop 0 invariant 0 <= i && len(gen.instructions) == lenAfterArgs + i && i <= ite(gen.scopes > 0, gen.scopes, 0)
+//@ C02,C03,C04,C09 assert pops-all-extra-scopes @before call AddInstruction[*]: typeis(arg1, PrepareCallInstr) ==> len(arg0.instructions) == lenAfterArgs + ite(gen.scopes > 0, gen.scopes, 0)
+//@ C02,C03,C04,C09 loop 0 invariant 0 <= i && len(gen.instructions) == lenAfterArgs + i && i <= ite(gen.scopes > 0, gen.scopes, 0)
 
 // ===========================================================================
 // C02  compiled control flow: relative jumps land where the construct says
@@ -1615,3 +1615,31 @@ package zygo
 //@ func MakeHash
 //@ noautoinv
 //@ C20 assert the-field-record-kind-is-not-a-type @before call RegisterUserdef[*]: typename != "field"
+
+// a package form leaves the compile-time scope count as it found it (its scope is opened and
+// closed by the form's own instructions)
+//@ func (*Generator).GeneratePackage
+//@ C01,C02,C04,C09 ensures scope-count-balanced: r0 == nil ==> gen.scopes == old(gen.scopes)
+//@ C01,C02,C04,C09 loop 0 invariant gen.scopes == old(gen.scopes)
+
+// C06: the lexer's look-back. twoback is the rune before the one being lexed: the ring holds
+// the current rune at priori-1 and the one before at priori-2, modulo the ring size
+//@ func (*Lexer).twoback
+//@ C06 pure
+//@ C06 ensures the-rune-before-the-current-one: 0 <= lexer.priori && lexer.priori < 20 ==> r0 == lexer.priorRune[(lexer.priori + 18) % 20]
+
+// C07: the arithmetic builtins fold every operand through NumericDo, left to right: the k-th
+// step combines the running value with operand k, none is skipped
+//@ func NumericFunction$1
+//@ ghost steps := 0 @entry
+//@ ghost steps := steps + 1 @after call NumericDo[0]
+//@ C07 assert every-operand-goes-through-the-tower @before call NumericDo[0]: arg1 == accum && arg2 == expr
+//@ C07 loop 0 invariant steps == rangeindex + 1
+//@ ghost nOps := 0 @entry
+//@ ghost nOps := len(ret0) @after call SubstituteRHS[0]
+//@ C07 ensures no-operand-is-skipped: r1 == nil ==> steps == nOps - 1
+
+// C05: Run does not edit the code of any function: a failure while a user function or macro
+// runs (through apply, map, macro expansion) leaves its definition as it was
+//@ func (*Zlisp).Run
+//@ C05 assert run-leaves-function-code-alone @before call store_SexpFunction[*]: false
